@@ -1,28 +1,770 @@
+// C17 — contract storage is confined to the contract-storage namespace and its keys are unambiguous.
+//
+// (a) dynamic confinement: every WriteSet produced by executing (i) the C15 probe-block corpus through the real
+//     ledger and (ii) a corpus of real governance / cross-chain-manager transactions contains only keys
+//     ST_STORAGE ++ <registered contract address> ++ …; after really submitting blocks the persistent state
+//     store holds contract data only under ST_STORAGE and the ledger bookkeeping keys are untouched by write sets.
+// (b) key-schema model: extract.go extracts every ConcatKey construction from the current source on every run;
+//     model.go searches the product automaton of every pair of record kinds of the same contract (and of every
+//     kind with itself) for a common key; every model collision is concretised and replayed through the real
+//     storage helpers (bindings.go) before it may become a VIOLATION; unreplayable ones are `unconfirmed`.
 package main
 
 import (
+	"encoding/hex"
 	"fmt"
 	"go/token"
-	"os"
+	"sort"
+	"strings"
+	"sync"
+	"sync/atomic"
+
+	"github.com/polynetwork/poly/common"
+	scom "github.com/polynetwork/poly/core/store/common"
+	"github.com/polynetwork/poly/core/types"
+	"github.com/polynetwork/poly/native"
+	_ "github.com/polynetwork/poly/native/service"
+	"github.com/polynetwork/poly/native/service/utils"
+	"verif.local/engine/ev"
+	"verif.local/engine/lib/ccm"
+	"verif.local/engine/lib/gov"
+	"verif.local/engine/lib/probe"
+	"verif.local/engine/polyenv"
 )
 
+var r *ev.Run
+
+var contractNames = map[common.Address]string{
+	utils.SideChainManagerContractAddress:  "SideChainManagerContractAddress",
+	utils.HeaderSyncContractAddress:        "HeaderSyncContractAddress",
+	utils.CrossChainManagerContractAddress: "CrossChainManagerContractAddress",
+	utils.NodeManagerContractAddress:       "NodeManagerContractAddress",
+	utils.RelayerManagerContractAddress:    "RelayerManagerContractAddress",
+	utils.Neo3StateManagerContractAddress:  "Neo3StateManagerContractAddress",
+	utils.SignatureManagerContractAddress:  "SignatureManagerContractAddress",
+	utils.ReplenishContractAddress:         "ReplenishContractAddress",
+}
+
+func contractAddr(name string) (common.Address, bool) {
+	for a, n := range contractNames {
+		if n == name {
+			return a, true
+		}
+	}
+	return common.Address{}, false
+}
+
+// ---------------------------------------------------------------------------------------------
+// (a) confinement
+
+type confine struct {
+	mu        sync.Mutex
+	writeSets int64
+	keys      int64
+	deletes   int64
+	observed  map[string]map[string]bool // contract name -> key suffixes seen (for schema validation)
+}
+
+func (c *confine) check(source string, ws map[string]string, detail func() any) {
+	atomic.AddInt64(&c.writeSets, 1)
+	for k, v := range ws {
+		atomic.AddInt64(&c.keys, 1)
+		if v == "" {
+			atomic.AddInt64(&c.deletes, 1)
+		}
+		if len(k) == 0 || k[0] != byte(scom.ST_STORAGE) {
+			p := "empty"
+			if len(k) > 0 {
+				p = fmt.Sprintf("0x%02x", k[0])
+			}
+			op := "put"
+			if v == "" {
+				op = "delete"
+			}
+			r.Violation("confinement/writeset-key-outside-ST_STORAGE:"+op+":prefix-"+p, map[string]any{"source": source, "key": hex.EncodeToString([]byte(k)), "tx": detail()})
+			continue
+		}
+		if len(k) < 21 {
+			r.Violation("confinement/key-without-contract-address", map[string]any{"source": source, "key": hex.EncodeToString([]byte(k)), "tx": detail()})
+			continue
+		}
+		var a common.Address
+		copy(a[:], k[1:21])
+		name, ok := contractNames[a]
+		if !ok {
+			if a == probe.Addr {
+				continue
+			}
+			r.Violation("confinement/key-under-unregistered-contract-address", map[string]any{"source": source, "key": hex.EncodeToString([]byte(k)), "tx": detail()})
+			continue
+		}
+		c.mu.Lock()
+		if c.observed[name] == nil {
+			c.observed[name] = map[string]bool{}
+		}
+		c.observed[name][k[21:]] = true
+		c.mu.Unlock()
+	}
+}
+
 func main() {
-	x := &extractor{fset: token.NewFileSet(), overlay: loadOverlay(), pkgs: map[string]*pkgInfo{}}
+	r = ev.Start("C17", "model_checking")
+	r.Require("writeset-put", "writeset-delete", "real-tx-success", "real-tx-fail", "kind-validated-by-binding", "kind-validated-by-real-tx", "pair-disjoint")
+	e := gov.NewEnv(4)
+	vals := e.Vals
+	polyenv.Setup(0, vals)
+	polyenv.InstallHeightLedger()
+	probe.Install()
+	for a := range native.Contracts {
+		if _, ok := contractNames[a]; !ok && a != probe.Addr {
+			r.HarnessError("native contract %x is not in the driver's contract table", a)
+		}
+	}
+	cf := &confine{observed: map[string]map[string]bool{}}
+	cov := map[string]any{}
+
+	// ---- (b) static extraction first (cheap; its result also drives the validation of (a)'s observations)
+	x := &extractor{fset: token.NewFileSet(), overlay: loadOverlay(), pkgs: map[string]*pkgInfo{}, PkgVarPrefixes: map[string]string{}, callerNames: map[string]string{}}
 	x.run()
-	ks := kindsOf(x.Sites)
-	for _, k := range ks {
-		fmt.Printf("%-70s uses=%v sites=%d pkgs=%v\n", k.ID(), k.Uses, len(k.Sites), k.Pkgs)
+	kinds := kindsOf(x.Sites)
+	if len(x.Sites) < 200 || len(kinds) < 40 {
+		r.HarnessError("extractor found only %d sites / %d kinds", len(x.Sites), len(kinds))
 	}
-	fmt.Println("sites", len(x.Sites), "concat calls", x.ConcatCalls, "kinds", len(ks), "cache uses", x.CacheUses, "resolved", x.CacheUsesResolved)
-	for _, u := range x.Unres {
-		fmt.Println("UNRES", u)
+	if len(x.Unres) > 0 || x.CacheUses != x.CacheUsesResolved {
+		r.HarnessError("extractor incomplete: %d CacheDB uses, %d resolved to a ConcatKey construction: %v", x.CacheUses, x.CacheUsesResolved, x.Unres)
 	}
-	if len(os.Args) > 1 {
-		for _, s := range x.Sites {
-			for _, g := range s.Segs {
-				if g.K == "var" {
-					fmt.Printf("VAR %s:%d %s  %s\n", s.File, s.Line, s.Func, g.Src)
+	for _, k := range kinds {
+		if strings.HasPrefix(k.Contract, "?") {
+			r.HarnessError("extractor could not resolve the contract of %v", k.Sites)
+		}
+		if _, ok := contractAddr(k.Contract); !ok {
+			r.HarnessError("unknown contract constant %s at %v", k.Contract, k.Sites)
+		}
+	}
+
+	// ---- (a) corpus 1: probe blocks through the real ledger
+	signer := polyenv.Key(20)
+	nW := 8
+	pool := probe.NewPool(nW, vals, "c17-", func(w *probe.Worker) {
+		if _, _, err := w.Commit([]*types.Transaction{probe.Tx([]probe.Op{{C: probe.Put, K: 'a', V: "A-seed"}}, 1000, signer)}); err != nil {
+			r.HarnessError("seed commit: %v", err)
+		}
+	})
+	var probeBlocks int64
+	{
+		L := r.QT(3, 4)
+		jobs := make(chan [][]probe.Op, 64)
+		var wg sync.WaitGroup
+		for _, w := range pool {
+			wg.Add(1)
+			go func(w *probe.Worker) {
+				defer wg.Done()
+				sb := w.Ch.L.VerifC15NewSandbox()
+				for batch := range jobs {
+					for _, p := range batch {
+						tx := probe.Tx(p, 1, signer)
+						res, err := w.Ch.L.VerifC15ExecOne(sb, w.DryHeader(), tx)
+						if err != nil {
+							r.HarnessError("probe exec: %v", err)
+						}
+						cf.check("probe-program", probe.WriteSet(res), func() any { return probe.Show(p) })
+						atomic.AddInt64(&probeBlocks, 1)
+						r.Eval()
+					}
 				}
+			}(w)
+		}
+		batch := make([][]probe.Op, 0, 128)
+		probe.SpaceA(L, 2, 1, func(p []probe.Op) bool {
+			batch = append(batch, p)
+			if len(batch) == 128 {
+				jobs <- batch
+				batch = make([][]probe.Op, 0, 128)
+			}
+			return !r.Expired()
+		})
+		jobs <- batch
+		close(jobs)
+		wg.Wait()
+		// multi-transaction blocks through the real ExecuteBlock
+		bodies := probe.Bodies([]string{"PA", "PB", "DA", "MV", "NT", "FL", "C1", "C2"}, 2, "")
+		idx := make(chan int, len(bodies))
+		for i := range bodies {
+			idx <- i
+		}
+		close(idx)
+		for _, w := range pool {
+			wg.Add(1)
+			go func(w *probe.Worker) {
+				defer wg.Done()
+				for i := range idx {
+					for j := range bodies {
+						progs := [][]probe.Op{probe.WithReads(probe.Relabel(bodies[i], "t0.")), probe.WithReads(probe.Relabel(bodies[j], "t1."))}
+						res, err := w.Exec([]*types.Transaction{probe.Tx(progs[0], 1, signer), probe.Tx(progs[1], 2, signer)})
+						if err != nil {
+							r.HarnessError("probe block exec: %v", err)
+						}
+						cf.check("probe-block", probe.WriteSet(res), func() any { return []string{probe.Show(progs[0]), probe.Show(progs[1])} })
+						atomic.AddInt64(&probeBlocks, 1)
+						r.Eval()
+					}
+				}
+			}(w)
+		}
+		wg.Wait()
+	}
+
+	// ---- (a) corpus 2: real governance / CCM transactions (World = production HandleInvokeTransaction path),
+	// recorded, then replayed as really submitted blocks on a ledger.
+	w := polyenv.NewWorld()
+	w.Genesis(vals)
+	rec := &recWorld{W: w, cf: cf}
+	realCorpus(e, rec)
+	if rec.ok > 0 {
+		r.Class("real-tx-success")
+	}
+	if rec.fail > 0 {
+		r.Class("real-tx-fail")
+	}
+	// replay the recorded transactions as blocks on a real ledger: ExecuteBlock write sets + final store scan
+	ch := pool[0]
+	var ledgerBlocks int
+	before := prefixCensus(ch.Ch.L.VerifC15RawState(nil))
+	for _, op := range rec.ops {
+		polyenv.GlobalHeight = ch.Ch.L.GetCurrentBlockHeight()
+		res, _, err := ch.Commit([]*types.Transaction{op})
+		if err != nil {
+			r.HarnessError("ledger replay of corpus tx failed: %v", err)
+		}
+		cf.check("ledger-block", probe.WriteSet(res), func() any { h := op.Hash(); return h.ToHexString() })
+		ledgerBlocks++
+		r.Eval()
+	}
+	final := ch.Ch.L.VerifC15RawState(nil)
+	after := prefixCensus(final)
+	for k := range final {
+		if len(k) > 0 && k[0] == byte(scom.ST_STORAGE) {
+			cf.check("ledger-final-state", map[string]string{k: final[k]}, func() any { return "final state scan" })
+		}
+	}
+	probe.ClosePool(pool)
+	if cf.keys-cf.deletes > 0 {
+		r.Class("writeset-put")
+	}
+	if cf.deletes > 0 {
+		r.Class("writeset-delete")
+	}
+	cov["a_confinement"] = map[string]any{"write_sets": cf.writeSets, "keys_checked": cf.keys, "delete_entries": cf.deletes,
+		"probe_blocks": probeBlocks, "real_txs": len(rec.ops), "real_tx_success": rec.ok, "real_tx_fail": rec.fail,
+		"ledger_blocks_submitted": ledgerBlocks, "state_store_prefix_census_before": before, "state_store_prefix_census_after": after,
+		"real_tx_methods": rec.methodList()}
+
+	// ---- (b)(i) validation of the extracted schemas
+	byContract := map[string][]*Kind{}
+	for _, k := range kinds {
+		byContract[k.Contract] = append(byContract[k.Contract], k)
+	}
+	validatedByTx := map[string]bool{}
+	for cname, keys := range cf.observed {
+		for suffix := range keys {
+			hit := false
+			for _, k := range byContract[cname] {
+				if matches(k.Segs, []byte(suffix)) {
+					hit = true
+					validatedByTx[k.ID()] = true
+				}
+			}
+			if !hit {
+				r.HarnessError("schema extraction incomplete: real key %s:%q (%x) matches no extracted record kind", cname, suffix, suffix)
+			}
+		}
+	}
+	validatedByBinding := map[string]bool{}
+	var bindingMismatch []string
+	for _, k := range kinds {
+		b, ok := bindings[firstLitName(k.Segs)]
+		if !ok {
+			continue
+		}
+		okAll := true
+		for t := 0; t < 2; t++ {
+			params := sampleParams(k.Segs, t)
+			a, err := mkArgs(k.Segs, params, fmt.Sprint("t", t))
+			if err != nil || !b.fits(firstLitName(k.Segs), a) {
+				okAll = false
+				break
+			}
+			want, _ := build(k.Segs, params)
+			addr, _ := contractAddr(k.Contract)
+			wantKey := string(append(append([]byte{byte(scom.ST_STORAGE)}, addr[:]...), want...))
+			s := newSandboxNS()
+			if err := b.put(s.ns, a); err != nil {
+				okAll = false
+				bindingMismatch = append(bindingMismatch, k.ID()+": helper error: "+err.Error())
+				s.close()
+				break
+			}
+			ws := s.written()
+			s.close()
+			if _, ok := ws[wantKey]; !ok {
+				okAll = false
+				var got []string
+				for kk := range ws {
+					got = append(got, hex.EncodeToString([]byte(kk)))
+				}
+				sort.Strings(got)
+				bindingMismatch = append(bindingMismatch, fmt.Sprintf("%s: schema key %x not among the keys written by the real helper %v", k.ID(), wantKey, got))
+				break
+			}
+			r.Eval()
+		}
+		if okAll {
+			validatedByBinding[k.ID()] = true
+		}
+	}
+	if len(validatedByBinding) > 0 {
+		r.Class("kind-validated-by-binding")
+	}
+	if len(validatedByTx) > 0 {
+		r.Class("kind-validated-by-real-tx")
+	}
+	if len(bindingMismatch) > 0 {
+		// the extracted schema disagrees with what the real helper writes: the extractor (or a binding) is wrong
+		r.HarnessError("schema/real-helper disagreement: %v", bindingMismatch)
+	}
+
+	// ---- (b)(ii) pairwise collision search
+	type pairRes struct {
+		A, B    string
+		Class   string
+		Word    string `json:"colliding_key_suffix_hex,omitempty"`
+		ParamsA []string `json:"params_a,omitempty"`
+		ParamsB []string `json:"params_b,omitempty"`
+		Note    string `json:"note,omitempty"`
+		SitesA  []string `json:"sites_a,omitempty"`
+		SitesB  []string `json:"sites_b,omitempty"`
+	}
+	unconfirmed, variants, crossRouter := []pairRes{}, []pairRes{}, []pairRes{}
+	modelSelfTest()
+	var pairs, selfs, productStates, modelCollisions, confirmed int
+	for cname, ks := range byContract {
+		for i := 0; i < len(ks); i++ {
+			for j := i; j < len(ks); j++ {
+				A, B := ks[i], ks[j]
+				self := i == j
+				if self {
+					selfs++
+				} else {
+					pairs++
+				}
+				if !self && sameRecordVariant(A.Segs, B.Segs) && sameNames(A.Segs, B.Segs) {
+					variants = append(variants, pairRes{A: A.ID(), B: B.ID(), Class: "same-record-layout-variant"})
+					r.Case("variant/" + cname)
+					continue
+				}
+				wit, n := collide(A.Segs, B.Segs, self)
+				productStates += n
+				r.Eval()
+				if wit == nil {
+					r.Class("pair-disjoint")
+					r.Case("disjoint/" + cname + "/" + shape(A.Segs) + "|" + shape(B.Segs))
+					continue
+				}
+				modelCollisions++
+				r.Class("model-collision")
+				pr := pairRes{A: A.ID(), B: B.ID(), Word: hex.EncodeToString(wit.Word), ParamsA: hexAll(wit.ParamsA), ParamsB: hexAll(wit.ParamsB), SitesA: A.Sites, SitesB: B.Sites}
+				// the witness must be a word of both schemas (self-check of the model)
+				wa, ea := build(A.Segs, wit.ParamsA)
+				wb, eb := build(B.Segs, wit.ParamsB)
+				if ea != nil || eb != nil || string(wa) != string(wit.Word) || string(wb) != string(wit.Word) {
+					r.HarnessError("model witness inconsistent for %s | %s", A.ID(), B.ID())
+				}
+				if !self && crossRouterPair(A, B) {
+					pr.Class = "unconfirmed"
+					pr.Note = "same prefix constant used by different header-sync routers with a chain-id segment at the same offset: a chain id is served by exactly one router, so both layouts never coexist for one chain id (assumption)"
+					crossRouter = append(crossRouter, pr)
+					r.Case("cross-router/" + shape(A.Segs) + "|" + shape(B.Segs))
+					continue
+				}
+				if self && fmt.Sprint(wit.ParamsA) == fmt.Sprint(wit.ParamsB) {
+					r.HarnessError("self-collision witness with equal parameter tuples for %s", A.ID())
+				}
+				// concretise + replay through the real helpers
+				ba, okA := bindings[firstLitName(A.Segs)]
+				bb, okB := bindings[firstLitName(B.Segs)]
+				if !okA || !okB || !validatedByBinding[A.ID()] || !validatedByBinding[B.ID()] {
+					pr.Class = "unconfirmed"
+					pr.Note = "no validated binding to a real storage helper for one of the kinds: not replayable"
+					unconfirmed = append(unconfirmed, pr)
+					r.Case("unconfirmed/" + cname)
+					continue
+				}
+				aa, e1 := mkArgs(A.Segs, wit.ParamsA, "record-A")
+				ab, e2 := mkArgs(B.Segs, wit.ParamsB, "record-B")
+				if e1 != nil || e2 != nil || !ba.fits(firstLitName(A.Segs), aa) || !bb.fits(firstLitName(B.Segs), ab) {
+					pr.Class = "unconfirmed"
+					pr.Note = "binding arity does not fit the (changed) schema"
+					unconfirmed = append(unconfirmed, pr)
+					continue
+				}
+				addr, _ := contractAddr(cname)
+				key := string(append(append([]byte{byte(scom.ST_STORAGE)}, addr[:]...), wit.Word...))
+				s := newSandboxNS()
+				errA := ba.put(s.ns, aa)
+				ws1 := s.written()
+				v1, in1 := ws1[key]
+				errB := bb.put(s.ns, ab)
+				ws2 := s.written()
+				v2, in2 := ws2[key]
+				s.close()
+				if errA != nil || errB != nil {
+					pr.Class = "unconfirmed"
+					pr.Note = fmt.Sprintf("real helper rejected the colliding parameters: %v / %v", errA, errB)
+					unconfirmed = append(unconfirmed, pr)
+					continue
+				}
+				if in1 && in2 && v1 != v2 {
+					confirmed++
+					pr.Class = "confirmed"
+					r.Violation("key-collision:"+cname+":"+kindName(A)+"|"+kindName(B), map[string]any{
+						"contract": cname, "kind_a": A.ID(), "kind_b": B.ID(), "sites_a": A.Sites, "sites_b": B.Sites,
+						"params_a_hex": pr.ParamsA, "params_b_hex": pr.ParamsB, "storage_key_hex": hex.EncodeToString([]byte(key)),
+						"replay": "put record A through its real helper, then record B through its real helper: the same storage key is written and A's value is overwritten",
+						"value_after_A_hex": hex.EncodeToString([]byte(v1)), "value_after_B_hex": hex.EncodeToString([]byte(v2)),
+						"self_collision": self})
+				} else {
+					pr.Class = "unconfirmed"
+					pr.Note = fmt.Sprintf("replay did not reproduce: key written by A=%v by B=%v", in1, in2)
+					unconfirmed = append(unconfirmed, pr)
+				}
+			}
+		}
+	}
+
+	// kinds written nowhere / read nowhere (informational; e.g. F4's QUIT_SIDE_CHAIN delete-only key)
+	var neverPut []string
+	for _, k := range kinds {
+		put := false
+		for _, u := range k.Uses {
+			if strings.Contains(u, "put") || u == "returned" || u == "other" {
+				put = true
+			}
+		}
+		if !put {
+			neverPut = append(neverPut, k.ID()+" "+strings.Join(k.Sites, ","))
+		}
+	}
+
+	var kindList []map[string]any
+	bound := 0
+	for _, k := range kinds {
+		_, hasB := bindings[firstLitName(k.Segs)]
+		if hasB {
+			bound++
+		}
+		kindList = append(kindList, map[string]any{"id": k.ID(), "sites": len(k.Sites), "uses": k.Uses, "binding": hasB,
+			"validated_by_binding": validatedByBinding[k.ID()], "validated_by_real_tx": validatedByTx[k.ID()]})
+	}
+	r.Sample(map[string]any{"example_kind": kinds[0].ID(), "sites": kinds[0].Sites})
+	for _, pr := range unconfirmed {
+		r.Sample(pr)
+	}
+	r.Assume("all storage keys are built by utils.ConcatKey (checked: every CacheDB Put/Get/Delete key argument in native/service resolves to a ConcatKey construction, else the run aborts)",
+		"segments the extractor cannot type are `var` (over-approximation: more model collisions, never fewer)",
+		"a header-sync chain id is served by exactly one router: equal prefix constants with different layouts in different routers are listed, not alarmed",
+		"package-level string VARIABLES used as prefixes (cross_chain_manager/common REQUEST, DONE_TX, …) are treated as constants after checking that nothing under native/ assigns them")
+	cov["rule"] = "(a) every write-set key = ST_STORAGE ++ registered contract ++ suffix; (b) no two record kinds of one contract (nor one kind with two parameter tuples) share a key: product-automaton search over extracted schemas, collisions replayed through real helpers"
+	cov["b_extraction"] = map[string]any{"concat_key_sites": len(x.Sites), "cache_db_uses": x.CacheUses, "cache_db_uses_resolved": x.CacheUsesResolved,
+		"record_kinds": len(kinds), "kinds_with_binding": bound, "kinds_validated_by_binding": len(validatedByBinding), "kinds_validated_by_real_tx": len(validatedByTx),
+		"package_var_prefixes": x.PkgVarPrefixes, "kinds_never_put": neverPut}
+	cov["b_kinds"] = kindList
+	cov["b_search"] = map[string]any{"pairs": pairs, "self_pairs": selfs, "product_states": productStates, "model_collisions": modelCollisions,
+		"confirmed_collisions": confirmed, "unconfirmed": unconfirmed, "same_record_layout_variants": len(variants), "cross_router_same_prefix": crossRouter}
+	cov["states"] = productStates
+	cov["transitions"] = pairs + selfs
+	cov["traces_validated_against_impl"] = int(cf.writeSets) + 2*len(validatedByBinding)
+	cov["max_depth"] = "product automaton explored to fixpoint for every pair"
+	r.Finish(cov)
+}
+
+func sameNames(a, b []Seg) bool {
+	for i := range a {
+		if a[i].K == "lit" && (a[i].Name != b[i].Name) {
+			return false
+		}
+	}
+	return true
+}
+
+func shape(p []Seg) string {
+	var s []string
+	for _, g := range p {
+		switch g.K {
+		case "lit":
+			s = append(s, "L")
+		case "fix":
+			s = append(s, fmt.Sprintf("F%d", g.N))
+		default:
+			s = append(s, "V")
+		}
+	}
+	return strings.Join(s, "")
+}
+
+func kindName(k *Kind) string {
+	n := firstLitName(k.Segs)
+	if n == "" {
+		return shape(k.Segs)
+	}
+	return n[strings.LastIndex(n, "/")+1:] + "/" + shape(k.Segs)
+}
+
+func hexAll(p [][]byte) []string {
+	out := make([]string, len(p))
+	for i, b := range p {
+		out[i] = hex.EncodeToString(b)
+	}
+	return out
+}
+
+// crossRouterPair: two header-sync kinds from disjoint router packages whose literal parts are equal and which
+// carry a chain-id segment at the same byte offset.
+func crossRouterPair(a, b *Kind) bool {
+	if a.Contract != "HeaderSyncContractAddress" {
+		return false
+	}
+	for _, p := range a.Pkgs {
+		for _, q := range b.Pkgs {
+			if p == q {
+				return false
+			}
+		}
+	}
+	offA, okA := chainOffset(a.Segs)
+	offB, okB := chainOffset(b.Segs)
+	return okA && okB && offA == offB && literalPart(a.Segs) == literalPart(b.Segs)
+}
+
+func chainOffset(p []Seg) (int, bool) {
+	off := 0
+	for _, s := range p {
+		switch s.K {
+		case "lit":
+			off += len(s.Lit)
+		case "fix":
+			if s.N == 8 && s.Chain {
+				return off, true
+			}
+			off += s.N
+		default:
+			return 0, false
+		}
+	}
+	return 0, false
+}
+
+func literalPart(p []Seg) string {
+	var s string
+	for _, g := range p {
+		if g.K == "lit" {
+			s += g.Lit + "|"
+		}
+	}
+	return s
+}
+
+// sampleParams: deterministic parameter values for tuple t of a schema.
+func sampleParams(p []Seg, t int) [][]byte {
+	out := make([][]byte, len(p))
+	for i, s := range p {
+		switch s.K {
+		case "lit":
+			out[i] = []byte(s.Lit)
+		case "fix":
+			b := make([]byte, s.N)
+			for j := range b {
+				b[j] = byte(0x10*(t+1) + i + j)
+			}
+			out[i] = b
+		default:
+			out[i] = []byte(fmt.Sprintf("v%d-%d", i, t))
+		}
+	}
+	return out
+}
+
+func prefixCensus(m map[string]string) map[string]int {
+	out := map[string]int{}
+	for k := range m {
+		if len(k) == 0 {
+			out["empty"]++
+			continue
+		}
+		out[fmt.Sprintf("0x%02x", k[0])]++
+	}
+	return out
+}
+
+// ---------------------------------------------------------------------------------------------
+// real transaction corpus
+
+type recWorld struct {
+	W        *polyenv.World
+	cf       *confine
+	ops      []*types.Transaction
+	ok, fail int
+	methods  map[string]int
+	n        uint32
+}
+
+func (w *recWorld) Exec(tx *types.Transaction, height, timestamp uint32) polyenv.Result {
+	res := w.W.Exec(tx, height, timestamp)
+	ws := map[string]string{}
+	for _, kv := range res.WriteSet {
+		ws[kv.K] = kv.V
+	}
+	w.cf.check("real-tx", ws, func() any { h := tx.Hash(); return h.ToHexString() })
+	r.Eval()
+	if res.OK {
+		w.ok++
+		w.ops = append(w.ops, tx) // only successful ones are replayed on the ledger (failed ones have empty write sets)
+	} else {
+		w.fail++
+		if len(res.WriteSet) != 0 {
+			r.Violation("confinement/failed-tx-has-write-set", map[string]any{"tx": txHashHex(tx), "err": fmt.Sprint(res.Err)})
+		}
+	}
+	return res
+}
+
+func (w *recWorld) Dump() polyenv.Dump { return w.W.Dump() }
+
+func (w *recWorld) methodList() []string {
+	var l []string
+	for m, n := range w.methods {
+		l = append(l, fmt.Sprintf("%s x%d", m, n))
+	}
+	sort.Strings(l)
+	return l
+}
+
+func (w *recWorld) note(m string, res polyenv.Result) {
+	if w.methods == nil {
+		w.methods = map[string]int{}
+	}
+	s := "fail"
+	if res.OK {
+		s = "ok"
+	}
+	w.methods[m+":"+s]++
+}
+
+func realCorpus(e *gov.Env, w *recWorld) {
+	h := uint32(1)
+	q := e.Q()
+	// node manager: register / approve (to quorum) / a duplicate / an outsider
+	w.note("registerCandidate", e.RegisterCandidate(w, "c1", "c1", h))
+	w.note("registerCandidate(dup)", e.RegisterCandidate(w, "c1", "c1", h))
+	w.note("approveCandidate(outsider)", e.ApproveCandidate(w, "c1", "X", h))
+	for i := 1; i <= q; i++ {
+		w.note("approveCandidate", e.ApproveCandidate(w, "c1", e.V(i), h))
+	}
+	w.note("commitDpos", e.CommitDpos(w, h))
+	w.note("quitNode", e.QuitNode(w, "c1", "c1", h+1))
+	w.note("commitDpos", e.CommitDpos(w, h+1))
+	// side chain manager: register + approvals, update + approvals, quit + approvals, outsider
+	for _, id := range []uint64{7, 8} {
+		w.note("registerSideChain", e.RegisterSideChain(w, "o1", "o1", id, "a", h))
+		w.note("registerSideChain(wrong signer)", e.RegisterSideChain(w, "o1", "X", id+100, "a", h))
+		for i := 1; i <= q; i++ {
+			w.note("approveRegisterSideChain", e.ApproveSC(w, "approveRegisterSideChain", id, e.V(i), h))
+		}
+	}
+	w.note("updateSideChain", e.UpdateSideChain(w, "o1", "o1", 7, "b", h))
+	for i := 1; i <= q; i++ {
+		w.note("approveUpdateSideChain", e.ApproveSC(w, "approveUpdateSideChain", 7, e.V(i), h))
+	}
+	w.note("quitSideChain", e.QuitSideChain(w, "o1", "o1", 8, h))
+	for i := 1; i <= q; i++ {
+		w.note("approveQuitSideChain", e.ApproveSC(w, "approveQuitSideChain", 8, e.V(i), h))
+	}
+	// relayer manager
+	w.note("registerRelayer", e.RegisterRelayer(w, []string{"ra", "rb"}, "o1", h))
+	for i := 1; i <= q; i++ {
+		w.note("approveRegisterRelayer", e.ApproveRelayer(w, "approveRegisterRelayer", 0, e.V(i), h))
+	}
+	w.note("removeRelayer", e.RemoveRelayer(w, []string{"rb"}, "o1", h))
+	for i := 1; i <= q; i++ {
+		w.note("approveRemoveRelayer", e.ApproveRelayer(w, "approveRemoveRelayer", 0, e.V(i), h))
+	}
+	// neo3 state validators
+	w.note("registerStateValidator", e.RegisterSV(w, []string{e.A("c1").PubHex}, "o1", h))
+	for i := 1; i <= q; i++ {
+		w.note("approveRegisterStateValidator", e.ApproveSV(w, "approveRegisterStateValidator", 0, e.V(i), h))
+	}
+	w.note("removeStateValidator", e.RemoveSV(w, []string{e.A("c1").PubHex}, "o1", h))
+	for i := 1; i <= q; i++ {
+		w.note("approveRemoveStateValidator", e.ApproveSV(w, "approveRemoveStateValidator", 0, e.V(i), h))
+	}
+	// cross chain manager: black / white list (operator), by an outsider
+	w.note("blackChain", w.Exec(ccm.BlackTx(7, false, 1, polyenv.Multi(e.Vals)), h, 1000))
+	w.note("blackChain(outsider)", w.Exec(ccm.BlackTx(7, false, 2, polyenv.Single(e.A("X"))), h, 1000))
+	w.note("whiteChain", w.Exec(ccm.BlackTx(7, true, 3, polyenv.Multi(e.Vals)), h, 1000))
+	// vote-router import: two vote-router chains, validators vote a message through to quorum (voteInfo, doneTx, request)
+	owner := polyenv.Key(900)
+	for _, sc := range []ccm.SC{{ID: 11, Router: utils.VOTE_ROUTER, Wait: 1, Name: "src", CCMC: []byte{1}}, {ID: 12, Router: utils.VOTE_ROUTER, Wait: 1, Name: "dst", CCMC: []byte{2}}} {
+		w.note("registerSideChain", w.Exec(ccm.RegisterTx(sc, owner, uint32(sc.ID)), h, 1000))
+		for i := 0; i < q; i++ {
+			w.note("approveRegisterSideChain", w.Exec(ccm.ApproveTx(sc.ID, e.Vals[i], uint32(sc.ID)), h, 1000))
+		}
+	}
+	msg := ccm.MsgBytes(ccm.Msg([]byte{0xaa, 1}, []byte{0xcc, 1}, []byte{0xf0}, 12, make([]byte, 20), "unlock", []byte{1, 2, 3}))
+	w.note("importOuterTransfer(vote, outsider)", w.Exec(ccm.VoteImport(11, 7, msg, e.A("X"), 50), h, 1000))
+	for i := 0; i < q; i++ {
+		w.note("importOuterTransfer(vote)", w.Exec(ccm.VoteImport(11, 7, msg, e.Vals[i], uint32(60+i)), h, 1000))
+	}
+	w.note("importOuterTransfer(vote, replay)", w.Exec(ccm.VoteImport(11, 7, msg, e.Vals[0], 70), h, 1000))
+}
+
+func txHashHex(tx *types.Transaction) string { h := tx.Hash(); return h.ToHexString() }
+
+// modelSelfTest: the collision search itself is checked on hand-made schemas before it is trusted.
+func modelSelfTest() {
+	L := func(s string) Seg { return Seg{K: "lit", Lit: s} }
+	F := func(n int) Seg { return Seg{K: "fix", N: n} }
+	V := Seg{K: "var"}
+	cases := []struct {
+		a, b []Seg
+		self bool
+		want bool
+	}{
+		{[]Seg{L("fee"), V}, []Seg{L("feeInfo"), F(8)}, false, true},
+		{[]Seg{L("fee"), F(8)}, []Seg{L("feeInfo"), F(8), F(8)}, false, false},
+		{[]Seg{L("fee"), F(8)}, []Seg{L("feeInfo"), F(4)}, false, true},
+		{[]Seg{L("quitSideChain"), F(8)}, []Seg{L("quitSideChainRequest"), F(8)}, false, false},
+		{[]Seg{L("quitSideChain"), V}, []Seg{L("quitSideChainRequest"), F(8)}, false, true},
+		{[]Seg{L("a"), V, V}, []Seg{L("a"), V, V}, true, true},
+		{[]Seg{L("a"), V, F(8)}, []Seg{L("a"), V, F(8)}, true, false},
+		{[]Seg{L("a"), F(8), V}, []Seg{L("a"), F(8), V}, true, false},
+		{[]Seg{L("a"), V, L("x"), V}, []Seg{L("a"), V, L("x"), V}, true, true},
+		{[]Seg{L("a"), V}, []Seg{L("a"), V}, true, false},
+		{[]Seg{F(8), L("dsComm"), F(8)}, []Seg{L("headerIndex"), F(8), V}, false, false},
+		{[]Seg{F(8), L("dex"), F(8)}, []Seg{L("headerIndex"), F(8), V}, false, true},
+		{[]Seg{L("x"), F(8)}, []Seg{L("y"), F(8)}, false, false},
+	}
+	for i, c := range cases {
+		w, _ := collide(c.a, c.b, c.self)
+		if (w != nil) != c.want {
+			r.HarnessError("model self-test %d failed", i)
+		}
+		if w != nil {
+			wa, e1 := build(c.a, w.ParamsA)
+			wb, e2 := build(c.b, w.ParamsB)
+			if e1 != nil || e2 != nil || string(wa) != string(wb) || !matches(c.a, w.Word) || !matches(c.b, w.Word) {
+				r.HarnessError("model self-test %d: inconsistent witness", i)
+			}
+			if c.self && fmt.Sprint(w.ParamsA) == fmt.Sprint(w.ParamsB) {
+				r.HarnessError("model self-test %d: self witness with equal tuples", i)
 			}
 		}
 	}
